@@ -4,6 +4,9 @@ import LcmModel.Diag
 import LcmModel.Spec
 import LcmModel.Keys
 import LcmModel.Validate
+import LcmModel.FuncRep
+import LcmModel.Kernels
+import LcmModel.LogGridF
 import LcmModel.ArgmaxND
 import LcmModel.Kwargs
 import LcmModel.GridsPy
@@ -139,6 +142,37 @@ def parsePyVal (j : Json) : Except String PyVal := do
     | _ => pure (.float (.fin (← parseRat s)))
   | "str" => pure .str | "none" => pure .none | _ => pure .other
 
+def parseFloatTensor (j : Json) : Except String (Tensor Float) := do
+  let shape ← j.getObjValAs? (Array Nat) "shape"
+  let data ← j.getObjValAs? (Array Nat) "bits"
+  pure { shape := shape.toList, get := fun idx => Float.ofBits (data[ravel shape.toList idx]!).toUInt64 }
+
+def floatTensorJson (t : Tensor Float) : Json :=
+  Json.mkObj [("shape", toJson t.shape), ("bits", toJson (t.toFlat.map fun x => x.toBits.toNat))]
+
+def parseRatTensor := parseTensor
+
+def ratTensorJson (t : Tensor Rat) : Json :=
+  Json.mkObj [("shape", toJson t.shape), ("data", toJson (t.toFlat.map showRat))]
+
+def parseIntTensor (j : Json) : Except String (Tensor Int) := do
+  let shape ← j.getObjValAs? (Array Nat) "shape"
+  let data ← j.getObjValAs? (Array Int) "data"
+  pure { shape := shape.toList, get := fun idx => data[ravel shape.toList idx]! }
+
+def parseSegs (j : Json) : Except String (Option (List Nat × Nat)) :=
+  match j.getObjValAs? (Array Nat) "seg_ids" with
+  | .ok ids => do pure (some (ids.toList, ← j.getObjValAs? Nat "num"))
+  | .error _ => pure none
+
+def bitsOf (j : Json) (k : String) : Except String Float := do
+  pure (Float.ofBits (← j.getObjValAs? Nat k).toUInt64)
+
+/-- body used by the dispatcher ops: sum_p coef_p * (sum of all entries of argument p) -/
+def tensorTotal (t : Tensor Rat) : Rat := (t.toFlat).foldl (· + ·) 0
+def linBody (coefs : List Int) : List (Tensor Rat) → Tensor Rat := fun args =>
+  { shape := [], get := fun _ => ((coefs.zip args).map fun (c, a) => (c : Rat) * tensorTotal a).foldl (· + ·) 0 }
+
 def handle (j : Json) : Except String Json := do
   let op ← j.getObjValAs? String "op"
   match op with
@@ -196,7 +230,8 @@ def handle (j : Json) : Except String Json := do
     let stop ← parsePyVal (← j.getObjVal? "stop")
     let n ← parsePyVal (← j.getObjVal? "n")
     let rep := (j.getObjValAs? Bool "repaired").toOption.getD false
-    return Json.mkObj [("ok", toJson (validateContinuous start stop n rep))]
+    let isLog := (j.getObjValAs? Bool "log").toOption.getD false
+    return Json.mkObj [("ok", toJson (if isLog then validateLogspace start stop n rep else validateContinuous start stop n rep))]
   | "discrete_validate" =>
     let isdc ← j.getObjValAs? Bool "dataclass"
     let vals ← (← (← j.getObjVal? "vals").getArr?).toList.mapM parsePyVal
@@ -259,6 +294,8 @@ def handle (j : Json) : Except String Json := do
         ("feas", toJson (sp.feas.map fun a => a.map fun p => showRat p.2)),
         ("rows", toJson (sp.rows.map fun r => (r.1 ++ r.2).map fun p => showRat p.2)),
         ("seg_ids", toJson sp.segIds),
+        ("indexer", Json.mkObj [("shape", toJson (sizes g.sS)),
+          ("data", toJson ((assignments g.sS).map fun a => match sp.feas.findIdx? (· == a) with | some k => (k : Int) | none => (-1 : Int)))]),
         ("shape", toJson ((if g.sS.isEmpty then [] else [sp.feas.length]) ++ sizes g.dS ++ sizes (cStateGrids g)))]
     return Json.mkObj [("ok", Json.arr out.toArray)]
   | "eval_funcs" =>
@@ -304,6 +341,96 @@ def handle (j : Json) : Except String Json := do
                             choices := ← parseRawVars (← mj.getObjVal? "choices"), states := ← parseRawVars (← mj.getObjVal? "states") }
     return Json.mkObj [("ok", Json.str (match validateModel raw with
       | .accepted => "accepted" | .modelInitError => "ModelInit" | .valueError => "ValueError"))]
+  | "function_representation" =>
+    let sj ← j.getObjVal? "space_info"
+    let interpArr ← (← sj.getObjVal? "interp").getArr?
+    let interp ← interpArr.toList.mapM fun e => do
+      let p ← e.getArr?
+      pure ((← (p[0]!).getStr?), (← parseGrid p[1]!))
+    let idxArr ← (← sj.getObjVal? "indexers").getArr?
+    let indexers ← idxArr.toList.mapM fun e => do
+      pure ({ axisNames := (← e.getObjValAs? (Array String) "axis_names").toList, name := ← e.getObjValAs? String "name",
+              outName := ← e.getObjValAs? String "out_name" } : IndexerInfo)
+    let si : SpaceInfo := { axisNames := (← sj.getObjValAs? (Array String) "axis_names").toList,
+                            lookup := (← sj.getObjValAs? (Array String) "lookup").toList, interp, indexers }
+    let pfx ← j.getObjValAs? String "prefix"
+    let ao ← (← j.getObjVal? "arrays").getObj?
+    let arrays ← ao.toList.mapM fun (k, v) => do pure (k, ← parseIntTensor v)
+    let V ← parseTensor (← j.getObjVal? "V")
+    let pts ← (← (← j.getObjVal? "points").getArr?).toList.mapM parseAssoc
+    let outs := pts.map fun pt =>
+      match functionRepresentation si pfx (fun n => (arrays.find? (·.1 == n)).map (·.2)) V
+          (fun n => (pt.find? (·.1 == n)).map (·.2)) with
+      | .ok q => Json.str (showRat q)
+      | .error .valueError => Json.str "ValueError"
+      | .error .undefined => Json.str "undefined"
+    return Json.mkObj [("ok", Json.arr outs.toArray)]
+  | "map_coordinates" =>
+    let inp ← parseTensor (← j.getObjVal? "input")
+    let isInt := (j.getObjValAs? Bool "int_input").toOption.getD false
+    let pts ← (← (← j.getObjVal? "coords").getArr?).toList.mapM fun pj => do
+      (← pj.getObjValAs? (Array String) "c").toList.mapM parseRat
+    let outs := pts.map fun cs =>
+      if cs.length != inp.shape.length then "ValueError"
+      else let q := interp inp cs
+        if isInt then toString (roundHalfAway q) else showRat q
+    return Json.mkObj [("ok", toJson outs)]
+  | "coord" =>
+    let g ← parseGrid (← j.getObjVal? "grid")
+    let vals ← (← j.getObjValAs? (Array String) "values").toList.mapM parseRat
+    return Json.mkObj [("ok", toJson (vals.map fun v => showRat (coordOf g v)))]
+  | "grid_points" =>
+    let g ← parseGrid (← j.getObjVal? "grid")
+    return Json.mkObj [("ok", toJson (g.points.map showRat))]
+  | "log_grid" =>
+    let a ← bitsOf j "a"; let b ← bitsOf j "b"; let n ← j.getObjValAs? Nat "n"
+    let vals := (← j.getObjValAs? (Array Nat) "values").toList.map fun x => Float.ofBits x.toUInt64
+    let kind := (j.getObjValAs? String "kind").toOption.getD "log"
+    let pts := if kind == "log" then logspaceF a b n else linspaceF a b n
+    let cs := vals.map fun v => if kind == "log" then logCoordF v a b n else linCoordF v a b n
+    return Json.mkObj [("ok", Json.mkObj [("points", toJson (pts.map fun x => x.toBits.toNat)), ("coords", toJson (cs.map fun x => x.toBits.toNat))])]
+  | "segment_argmax" =>
+    let a ← parseExtTensor (← j.getObjVal? "a")
+    let ids ← j.getObjValAs? (Array Nat) "seg_ids"
+    let num ← j.getObjValAs? Nat "num"
+    let (ix, mx) := segmentArgmaxND a ids.toList num
+    return Json.mkObj [("ok", Json.mkObj [("shape", toJson ix.shape), ("idx", toJson ix.toFlat), ("max", toJson (mx.toFlat.map showExt))])]
+  | "discrete_problem" =>
+    let m ← parseModel (← j.getObjVal? "model")
+    let values ← parseExtTensor (← j.getObjVal? "values")
+    let segs ← parseSegs j
+    let axes := denseChoiceAxes (variableInfo m)
+    let out := solveDiscreteProblem values axes segs
+    return Json.mkObj [("ok", Json.mkObj [("axes", toJson axes), ("out", tensorJson out)])]
+  | "dispatch" =>
+    let kind ← j.getObjValAs? String "kind"
+    let params := (← j.getObjValAs? (Array String) "params").toList
+    let coefs := (← j.getObjValAs? (Array (Array Int)) "coefs").toList.map (·.toList)
+    let ao ← j.getObjVal? "args"
+    let args ← params.mapM fun p => do parseTensor (← ao.getObjVal? p)
+    let vars := ((j.getObjValAs? (Array String) "vars").toOption.getD #[]).toList
+    let dense := ((j.getObjValAs? (Array String) "dense").toOption.getD #[]).toList
+    let sparse := ((j.getObjValAs? (Array String) "sparse").toOption.getD #[]).toList
+    let df := (j.getObjValAs? Bool "dense_first").toOption.getD false
+    let outs := coefs.map fun cf =>
+      let f := linBody cf
+      let r := match kind with
+        | "productmap" => productmapModel params f vars args
+        | "vmap1d" => vmap1dModel params f vars args
+        | _ => spacemapModel params f dense sparse df args
+      ratTensorJson r
+    return Json.mkObj [("ok", Json.arr outs.toArray)]
+  | "lse" =>
+    let values ← parseFloatTensor (← j.getObjVal? "values")
+    let scale ← bitsOf j "scale"
+    let axes := ((j.getObjValAs? (Array Nat) "axes").toOption.getD #[]).toList
+    let segs ← parseSegs j
+    return Json.mkObj [("ok", floatTensorJson (emaxExtremeValueF values scale axes segs))]
+  | "segment_lse" =>
+    let a ← parseFloatTensor (← j.getObjVal? "a")
+    let ids ← j.getObjValAs? (Array Nat) "seg_ids"
+    let num ← j.getObjValAs? Nat "num"
+    return Json.mkObj [("ok", floatTensorJson (segmentLogSumExpF a ids.toList num))]
   | "variable_info" =>
     let m ← parseModel (← j.getObjVal? "model")
     return Json.mkObj [("ok", toJson ((variableInfo m).map (·.name)))]
